@@ -8,14 +8,14 @@ def run(tier, seed):
     hc = hcommon.HandlerCheck(PROP, tier, seed)
     hc.gate()
     hc.run_corpus(lambda kind: srcprops.oracle_c07)
-    for cfg, data in srcprops.c07_cases(tier, hc.rng):
+    for cfg, data in hcommon.share(srcprops.c07_cases(tier, hc.rng)):
         kind, ops, obs = srcprops.nominal_source_case(cfg, data)
         hc.add_trace(kind, ops, obs, label="nominal", oracle=srcprops.oracle_c07)
         hc.count(("size", None if data is None else min(len(data), 16)))
         hc.count(("seg", cfg.max_seg))
         if len(hc.v.violations) > 3:
             break
-    for seq in srcprops.c07_reuse_cases(tier, hc.rng):
+    for seq in hcommon.share(srcprops.c07_reuse_cases(tier, hc.rng)):
         kind, ops, obs = srcprops.reuse_source_case(seq)
         hc.add_trace(kind, ops, obs, label="consecutive transactions on one handler", oracle=srcprops.oracle_c07)
         hc.count(("reuse", len(seq)))
